@@ -10,6 +10,12 @@
 //!
 //! stdin: one scenario per line, actions separated by ';'
 //!     do <call> | start <call> | rel <n> | run | ps <n>
+//!     | mode instant | go | mode remote
+//!     (mode instant: the target is created with spawn_instant and its pre_start parks at a gate (it
+//!      links itself to the supervisor first, so the exit reason stays observable); `go` opens the gate.
+//!      mode remote: the target carries a REMOTE ActorId (ActorRuntime::spawn_linked_remote) and
+//!      handles serialized messages; sends use a serializable message type, flag n = a type
+//!      without wire format (must come back as InvalidActorType); no gates / box scripts there.)
 //!     (ps <n>: the target actor's post_stop releases the n-th started thread and waits for it, i.e.
 //!      a sender parked in box_message completes while the actor is between its loop exit and the
 //!      drop of its ports; declared once, anywhere in the line)
@@ -24,6 +30,8 @@
 //!               8 rpc::call_and_forward(&cell, .., forward_to_cell, .., None)
 //!               9 rpc::multi_call(&[ActorRef::<T>::from(cell)], .., None)
 //!             (7-9 spawn tasks: on a thread without a runtime context they fall back to 3)
+//!             s / c / q: the message enters through ActorCell::send_serialized as a Cast / a Call whose
+//!             reply receiver the caller has already dropped / a Call whose caller still waits
 //!             (a call is polled once: Pending / Ok(_) = the request was accepted = ROk)
 //!             first list: calls made from inside box_message; second: calls made by the handler
 //!             D = drain(), T = stop(None), K = kill()
@@ -61,6 +69,10 @@ struct Spec {
     gate: bool,
     hfail: bool,
     via: u8,
+    /// 0 typed send; 1 send_serialized Cast; 2 send_serialized Call, receiver dropped; 3 Call, receiver kept
+    ser: u8,
+    /// remote mode: a message type without wire format
+    nonser: bool,
     box_calls: Vec<Call>,
     hcalls: Vec<Call>,
 }
@@ -150,6 +162,16 @@ impl<'a> P<'a> {
                     gate: flags.contains('g'),
                     hfail: flags.contains('f'),
                     via: flags.chars().find(|c| c.is_ascii_digit()).map(|c| c as u8 - b'0').unwrap_or(0),
+                    ser: if flags.contains('s') {
+                        1
+                    } else if flags.contains('c') {
+                        2
+                    } else if flags.contains('q') {
+                        3
+                    } else {
+                        0
+                    },
+                    nonser: flags.contains('n'),
                     box_calls,
                     hcalls,
                 }))
@@ -188,6 +210,32 @@ struct Ctx {
     /// start-order indices of the threads post_stop releases
     ps: Mutex<Vec<usize>>,
     hang: std::sync::atomic::AtomicBool,
+    /// mode remote: the target has a remote ActorId
+    remote: std::sync::atomic::AtomicBool,
+    /// mode instant: pre_start links to this supervisor and then waits for a permit
+    pre_gate: OnceLock<(ActorCell, Arc<tokio::sync::Semaphore>)>,
+    /// reply receivers of serialized calls whose caller "still waits"
+    kept: Mutex<Vec<Box<dyn std::any::Any + Send>>>,
+}
+
+/// serialized messages carry only the payload id; the receiving side finds the scripted
+/// behaviour of that message here (one scenario at a time per process)
+static REG: Mutex<Option<std::collections::HashMap<u64, (Arc<Spec>, Arc<Ctx>)>>> = Mutex::new(None);
+fn reg_put(spec: &Arc<Spec>, ctx: &Arc<Ctx>) {
+    REG.lock().unwrap().get_or_insert_with(Default::default).insert(spec.pid, (spec.clone(), ctx.clone()));
+}
+fn reg_get(pid: u64) -> Option<(Arc<Spec>, Arc<Ctx>)> {
+    REG.lock().unwrap().as_ref().and_then(|m| m.get(&pid).cloned())
+}
+fn pid_of_serialized(m: &ractor::message::SerializedMessage) -> u64 {
+    use ractor::message::SerializedMessage::*;
+    let args = match m {
+        Cast { args, .. } | Call { args, .. } => args,
+        CallReply(_, args) => args,
+    };
+    let mut b = [0u8; 8];
+    b.copy_from_slice(&args[..8]);
+    u64::from_be_bytes(b)
 }
 impl Ctx {
     fn ev(&self, s: String) {
@@ -204,6 +252,9 @@ impl Ctx {
             started: Mutex::new(Vec::new()),
             ps: Mutex::new(Vec::new()),
             hang: std::sync::atomic::AtomicBool::new(false),
+            remote: std::sync::atomic::AtomicBool::new(false),
+            pre_gate: OnceLock::new(),
+            kept: Mutex::new(Vec::new()),
         })
     }
     /// release the n-th started thread (if still parked) and wait until its send has returned
@@ -233,7 +284,30 @@ struct Inner {
     ctx: Arc<Ctx>,
     reply: Option<RpcReplyPort<u64>>,
 }
-impl Message for Inner {}
+impl Message for Inner {
+    fn deserialize(m: ractor::message::SerializedMessage) -> Result<Self, BoxedDowncastErr> {
+        let (spec, ctx) = reg_get(pid_of_serialized(&m)).ok_or(BoxedDowncastErr)?;
+        Ok(Inner { spec, ctx, reply: None })
+    }
+}
+
+/// remote mode: a message type with a wire format ...
+struct SMsg(u64);
+impl Message for SMsg {
+    fn serializable() -> bool {
+        true
+    }
+    fn serialize(self) -> Result<ractor::message::SerializedMessage, BoxedDowncastErr> {
+        Ok(ractor::message::SerializedMessage::Cast {
+            variant: "m".into(),
+            args: self.0.to_be_bytes().to_vec(),
+            metadata: None,
+        })
+    }
+    fn deserialize(m: ractor::message::SerializedMessage) -> Result<Self, BoxedDowncastErr> {
+        Ok(SMsg(pid_of_serialized(&m)))
+    }
+}
 
 /// the actor's message type; its `box_message` is the door into the send path
 struct HMsg {
@@ -345,8 +419,46 @@ fn res_term<T>(r: &Result<(), MessagingErr<T>>, pid_of: impl Fn(&T) -> u64) -> S
 fn perform(ctx: &Arc<Ctx>, c: &Call, gate: Option<Arc<Gate>>) {
     match c {
         Call::Send(spec) => {
-            ctx.ev(format!("EBegin {} {}", spec.pid, coq_bool(spec.wrong)));
-            let r = if spec.wrong {
+            let remote = ctx.remote.load(std::sync::atomic::Ordering::SeqCst);
+            ctx.ev(format!("EBegin {} {}", spec.pid, coq_bool(spec.wrong || (remote && spec.nonser))));
+            let r = if remote {
+                // only the plain entry points: the default box_message decides
+                let via = match spec.via {
+                    1 | 2 | 5 => spec.via,
+                    _ => 0,
+                };
+                if spec.nonser {
+                    let r = send_via(ctx, via, Wrong(spec.pid, None), |m, _| m);
+                    res_term(&r, |m| m.0)
+                } else {
+                    reg_put(spec, ctx);
+                    let r = send_via(ctx, via, SMsg(spec.pid), |m, _| m);
+                    res_term(&r, |m| m.0)
+                }
+            } else if spec.ser != 0 {
+                use ractor::message::SerializedMessage;
+                reg_put(spec, ctx);
+                let args = spec.pid.to_be_bytes().to_vec();
+                let m = if spec.ser == 1 {
+                    SerializedMessage::Cast { variant: "m".into(), args, metadata: None }
+                } else {
+                    let (tx, rx) = tokio::sync::oneshot::channel::<Vec<u8>>();
+                    if spec.ser == 3 {
+                        ctx.kept.lock().unwrap().push(Box::new(rx));
+                    } else {
+                        drop(rx);
+                    }
+                    SerializedMessage::Call { variant: "m".into(), args, reply: tx.into(), metadata: None }
+                };
+                match ctx.cell().send_serialized(m) {
+                    Ok(()) => "ROk".to_string(),
+                    Err(e) => match *e {
+                        MessagingErr::SendErr(m) => format!("(RErr {})", pid_of_serialized(&m)),
+                        MessagingErr::InvalidActorType => "RInvalid".into(),
+                        MessagingErr::ChannelClosed => "RChannelClosed".into(),
+                    },
+                }
+            } else if spec.wrong {
                 let r = send_via(ctx, spec.via, Wrong(spec.pid, None), |m, p| Wrong(m.0, Some(p)));
                 res_term(&r, |m| m.0)
             } else {
@@ -381,7 +493,12 @@ impl Actor for Target {
     type Msg = HMsg;
     type State = ();
     type Arguments = ();
-    async fn pre_start(&self, _: ActorRef<HMsg>, _: ()) -> Result<(), ActorProcessingErr> {
+    async fn pre_start(&self, myself: ActorRef<HMsg>, _: ()) -> Result<(), ActorProcessingErr> {
+        if let Some((sup, gate)) = self.0.pre_gate.get() {
+            // unsupervised start (spawn_instant); linking here keeps the exit reason observable
+            myself.link(sup.clone());
+            gate.acquire().await.expect("gate").forget();
+        }
         Ok(())
     }
     async fn post_stop(&self, _: ActorRef<HMsg>, _: &mut ()) -> Result<(), ActorProcessingErr> {
@@ -403,6 +520,36 @@ impl Actor for Target {
         if m.spec.hfail {
             self.0.ev("EFail".into());
             return Err("scripted handler failure".into());
+        }
+        Ok(())
+    }
+}
+
+/// the target of `mode remote`: an actor with a remote ActorId handles serialized messages only
+struct RTarget(Arc<Ctx>);
+impl Actor for RTarget {
+    type Msg = SMsg;
+    type State = ();
+    type Arguments = ();
+    async fn pre_start(&self, _: ActorRef<SMsg>, _: ()) -> Result<(), ActorProcessingErr> {
+        Ok(())
+    }
+    async fn handle_serialized(
+        &self,
+        _: ActorRef<SMsg>,
+        m: ractor::message::SerializedMessage,
+        _: &mut (),
+    ) -> Result<(), ActorProcessingErr> {
+        let pid = pid_of_serialized(&m);
+        self.0.ev(format!("EHandle {pid}"));
+        if let Some((spec, _)) = reg_get(pid) {
+            for c in &spec.hcalls {
+                perform(&self.0, c, None);
+            }
+            if spec.hfail {
+                self.0.ev("EFail".into());
+                return Err("scripted handler failure".into());
+            }
         }
         Ok(())
     }
@@ -454,11 +601,34 @@ struct Started {
 
 async fn run_case(line: &str) -> String {
     let ctx = Ctx::new();
+    *REG.lock().unwrap() = None;
     let (sup, _sh) = Actor::spawn(None, Sup(ctx.clone()), ()).await.expect("sup");
-    let (actor, _ah) = Actor::spawn_linked(None, Target(ctx.clone()), (), sup.get_cell())
+    let instant = line.contains("mode instant");
+    let remote = line.contains("mode remote");
+    let gate = Arc::new(tokio::sync::Semaphore::new(0));
+    let actor: ActorCell = if remote {
+        ctx.remote.store(true, std::sync::atomic::Ordering::SeqCst);
+        let (a, _h) = ractor::ActorRuntime::spawn_linked_remote(
+            None,
+            RTarget(ctx.clone()),
+            ActorId::Remote { node_id: 7, pid: 4242 },
+            (),
+            sup.get_cell(),
+        )
         .await
-        .expect("target");
-    let _ = ctx.cell.set(actor.get_cell());
+        .expect("remote target");
+        a.get_cell()
+    } else if instant {
+        let _ = ctx.pre_gate.set((sup.get_cell(), gate.clone()));
+        let (a, _h) = ractor::ActorRuntime::spawn_instant(None, Target(ctx.clone()), ()).expect("instant target");
+        a.get_cell()
+    } else {
+        let (a, _ah) = Actor::spawn_linked(None, Target(ctx.clone()), (), sup.get_cell())
+            .await
+            .expect("target");
+        a.get_cell()
+    };
+    let _ = ctx.cell.set(actor.clone());
     let _ = ctx.fwd.set(sup.clone());
     quiesce().await;
     let actions: Vec<(&str, &str)> = line
@@ -474,7 +644,8 @@ async fn run_case(line: &str) -> String {
     }
     for (kw, rest) in actions {
         match kw {
-            "ps" => {}
+            "ps" | "mode" => {}
+            "go" => gate.add_permits(1),
             "do" => perform(&ctx, &parse_call(rest), None),
             "start" => {
                 let call = parse_call(rest);
@@ -549,6 +720,8 @@ fn stress(rest: &str) -> String {
                         gate: false,
                         hfail: false,
                         via: 0,
+                        ser: 0,
+                        nonser: false,
                         box_calls: vec![],
                         hcalls: vec![],
                     });
@@ -609,8 +782,172 @@ fn stress(rest: &str) -> String {
     })
 }
 
+// ---------------------------------------------------------------- race rounds (refused senders vs drain)
+//
+// `race <rounds> <senders> <seed>`: each round a fresh actor on the paused current_thread runtime;
+// <senders> pooled OS threads cast at full speed until their first refusal while one more thread
+// calls drain() as soon as some sender has a few accepted messages (plus a per-round spin). The
+// driver thread is blocked meanwhile, so the actor does not run during the race: the race is purely
+// on the admission word and the channel, and it is the REFUSED senders that overlap the drain's
+// marker decision. Verdict per round is not timing based: all threads have finished the round and
+// drain() has returned, then the actor runs to quiescence (sleep(1ns) barrier) and must have handled
+// everything accepted and exited with reason Drained. Events carry a global sequence number taken
+// before a call and after its return, so the merged log is a valid real-time order.
+// Output: (Race rounds bad [logs of bad rounds (<= 3)] [log of one good round]).
+struct RaceShared {
+    cell: Mutex<Option<ActorCell>>,
+    ctx: Mutex<Option<Arc<Ctx>>>,
+    seq: std::sync::atomic::AtomicU64,
+    warmed: std::sync::atomic::AtomicBool,
+    spin: std::sync::atomic::AtomicU64,
+    quit: std::sync::atomic::AtomicBool,
+    start: std::sync::Barrier,
+    end: std::sync::Barrier,
+    events: Mutex<Vec<(u64, String)>>,
+}
+
+fn race(rest: &str) -> String {
+    use std::sync::atomic::Ordering::SeqCst;
+    let w: Vec<u64> = rest.split_whitespace().map(|x| x.parse().expect("num")).collect();
+    let (rounds, senders, seed) = (w[0], w[1] as usize, w[2]);
+    let sh = Arc::new(RaceShared {
+        cell: Mutex::new(None),
+        ctx: Mutex::new(None),
+        seq: std::sync::atomic::AtomicU64::new(0),
+        warmed: std::sync::atomic::AtomicBool::new(false),
+        spin: std::sync::atomic::AtomicU64::new(0),
+        quit: std::sync::atomic::AtomicBool::new(false),
+        start: std::sync::Barrier::new(senders + 2),
+        end: std::sync::Barrier::new(senders + 2),
+        events: Mutex::new(Vec::new()),
+    });
+    let mut pool = Vec::new();
+    for t in 0..senders {
+        let sh = sh.clone();
+        pool.push(std::thread::spawn(move || loop {
+            sh.start.wait();
+            if sh.quit.load(SeqCst) {
+                return;
+            }
+            let cell = sh.cell.lock().unwrap().clone().unwrap();
+            let ctx = sh.ctx.lock().unwrap().clone().unwrap();
+            let mut mine: Vec<(u64, String)> = Vec::new();
+            let mut k = 0u64;
+            loop {
+                let pid = (t as u64) * 40 + k + 1;
+                let spec = Arc::new(Spec {
+                    pid,
+                    wrong: false,
+                    boxfail: false,
+                    gate: false,
+                    hfail: false,
+                    via: 0,
+                    ser: 0,
+                    nonser: false,
+                    box_calls: vec![],
+                    hcalls: vec![],
+                });
+                let b = sh.seq.fetch_add(1, std::sync::atomic::Ordering::Relaxed);
+                let r = cell.send_message(HMsg { spec, ctx: ctx.clone(), gate: None, reply: None });
+                let e = sh.seq.fetch_add(1, std::sync::atomic::Ordering::Relaxed);
+                let ok = r.is_ok();
+                mine.push((b, format!("EBegin {pid} false")));
+                mine.push((e, format!("EEnd {pid} {}", res_term(&r, |m| m.spec.pid))));
+                k += 1;
+                if k == 4 {
+                    sh.warmed.store(true, std::sync::atomic::Ordering::Release);
+                }
+                if !ok || k >= 39 {
+                    break;
+                }
+            }
+            sh.events.lock().unwrap().extend(mine);
+            sh.end.wait();
+        }));
+    }
+    {
+        let sh = sh.clone();
+        pool.push(std::thread::spawn(move || loop {
+            sh.start.wait();
+            if sh.quit.load(SeqCst) {
+                return;
+            }
+            let cell = sh.cell.lock().unwrap().clone().unwrap();
+            while !sh.warmed.load(std::sync::atomic::Ordering::Acquire) {
+                std::hint::spin_loop();
+            }
+            for _ in 0..sh.spin.load(SeqCst) {
+                std::hint::spin_loop();
+            }
+            let r = cell.drain();
+            let e = sh.seq.fetch_add(1, std::sync::atomic::Ordering::Relaxed);
+            sh.events.lock().unwrap().push((e, format!("EDrainEnd {}", coq_bool(r.is_ok()))));
+            sh.end.wait();
+        }));
+    }
+    let rt = tokio::runtime::Builder::new_current_thread().enable_time().start_paused(true).build().unwrap();
+    let mut bad_logs: Vec<String> = Vec::new();
+    let mut good_log: Option<String> = None;
+    let mut bad = 0u64;
+    rt.block_on(async {
+        for round in 0..rounds {
+            let ctx = Ctx::new();
+            let (sup, _sh) = Actor::spawn(None, Sup(ctx.clone()), ()).await.expect("sup");
+            let (actor, _ah) = Actor::spawn_linked(None, Target(ctx.clone()), (), sup.get_cell())
+                .await
+                .expect("target");
+            let _ = ctx.cell.set(actor.get_cell());
+            *sh.cell.lock().unwrap() = Some(actor.get_cell());
+            *sh.ctx.lock().unwrap() = Some(ctx.clone());
+            sh.warmed.store(false, SeqCst);
+            sh.spin.store(((round.wrapping_mul(2654435761).wrapping_add(seed)) % 7) * 300, SeqCst);
+            sh.events.lock().unwrap().clear();
+            sh.seq.store(0, SeqCst);
+            sh.start.wait();
+            sh.end.wait();
+            // every sender has seen its first refusal and drain() has returned
+            quiesce().await;
+            let mut evs = std::mem::take(&mut *sh.events.lock().unwrap());
+            evs.sort_by_key(|e| e.0);
+            let mut log: Vec<String> = evs.into_iter().map(|e| e.1).collect();
+            log.extend(ctx.log.lock().unwrap().iter().cloned());
+            let drained = log.iter().any(|e| e == "EExit RDrained");
+            let accepted = log.iter().filter(|e| e.starts_with("EEnd") && e.ends_with("ROk")).count();
+            let handled = log.iter().filter(|e| e.starts_with("EHandle")).count();
+            let ok = drained && accepted == handled && actor.get_status() == ractor::ActorStatus::Stopped;
+            if !ok {
+                bad += 1;
+                if bad_logs.len() < 3 {
+                    bad_logs.push(coq_list(&log));
+                }
+            } else if good_log.is_none() && round >= rounds / 2 {
+                good_log = Some(coq_list(&log));
+            }
+            actor.kill();
+            sup.stop(None);
+            quiesce().await;
+        }
+    });
+    sh.quit.store(true, SeqCst);
+    sh.start.wait();
+    for h in pool {
+        let _ = h.join();
+    }
+    format!(
+        "(Race {} {} {} {})",
+        rounds,
+        bad,
+        coq_list(&bad_logs),
+        coq_list(&good_log.into_iter().collect::<Vec<_>>())
+    )
+}
+
 fn main() {
     for line in stdin_lines() {
+        if let Some(rest) = line.strip_prefix("race ") {
+            println!("{}", race(rest));
+            continue;
+        }
         if let Some(rest) = line.strip_prefix("stress ") {
             println!("{}", stress(rest));
             continue;
